@@ -65,6 +65,9 @@ Step(st, op, v) ==
     [] op = "pv_assign" -> IF v = Bad THEN Same(st, "TraitError") ELSE Same([st EXCEPT !.pvset = 1, !.pvval = v], "")
     [] op = "pv_del" -> Same([st EXCEPT !.pvset = 0, !.pvval = 0], "")
     \* wr = WeakRef(Leaf): 0 None | 1 refers to the object's own child | 2 refers to a Leaf of a former object
+    \* byleaf = Dict(Instance(Leaf), Int): 0 empty | 1 keyed by the object's own child (a copy is keyed by ITS child: the
+    \* object graph is copied as a whole) | 2 keyed by another Leaf
+    [] op = "bl_child" -> Same([st EXCEPT !.bl = 1], "")
     [] op = "wr_child" -> Same([st EXCEPT !.wr = 1], "")
     [] op = "wr_none" -> Same([st EXCEPT !.wr = 0], "")
     [] op = "child_items" -> IF v = Bad THEN Same(st, "TraitError") ELSE Same([st EXCEPT !.child.items = Append(@, v)], "")
